@@ -298,7 +298,6 @@ func narrowTable(c *core.Ctx, fn *ssa.Function, maxLen int) (rs rows, runs int, 
 						}
 						t.invoke[wqM] = func(ip *absint.Interp, a []absint.Value) absint.Value { return a[0].(*absint.Tok).Attr["qual"] }
 						t.invokeN["Kind"] = func(ip *absint.Interp, a []absint.Value) absint.Value { return absint.Int(fieldKind) }
-						t.global = func(g *ssa.Global) absint.Value { return absint.NewTok("global:"+g.Name(), "global") }
 						return t, narrowArgs(c, fn, n, in), nil
 					}
 					check := func(ip *absint.Interp, out absint.Outcome) {
